@@ -48,6 +48,10 @@ def run(pid, tier, replay):
         return 1 if still else 0
     n_thm, n_closed, thm_details, thm_failed = common.check_theorems(spec['theorems']) if not os.environ.get('VERIF_DEV') else (1, 1, [], [])
     log('theorems: %d stated, %d closed under the global context; failed files: %s' % (n_thm, n_closed, thm_failed))
+    # a theorem or a sweep no longer checks (or the regenerated data changed): the streams search deeper for a failing input
+    ctx.proof_broken = bool(thm_failed or n_closed < n_thm or b.coq_failed or b.generated_changed)
+    if ctx.proof_broken:
+        log('proof obligations broken or data regenerated: deep search for a failing input (coq files not compiled: %s)' % b.coq_failed)
     cov = spec['fn'](ctx) or {}
     # the harness process itself died while producing a stream (an engine panic reached outside the recovered observation
     # points): the stream is truncated, so "nothing found" would mean nothing; the panic text names the input
@@ -308,6 +312,8 @@ def sig(*parts):
 
 
 def pos_sizes(ctx):
+    if getattr(ctx, 'proof_broken', False) and ctx.quick:
+        return (30, 600, None)         # every position of the stream is judged against the rules (Spec), not a sample
     return (30, 600, 400) if ctx.quick else (1500, 40000, 6000)       # playout games, synthetic placements, spec sample
 
 
@@ -1185,8 +1191,16 @@ def c03(ctx):
     kinds = {}
     for j in jobs:
         kinds[j.go.split()[1] if len(j.go.split()) > 1 else 'bare'] = kinds.get(j.go.split()[1] if len(j.go.split()) > 1 else 'bare', 0) + 1
+    # every go is answered exactly once also when it follows the previous bestmove at once (the old search thread still exiting)
+    rcg, outg, errg, _ = harness(['rego'], timeout=300)
+    for l in outg.strip().split('\n'):
+        f = l.split('\t')
+        if len(f) == 3 and f[0] != 'ok':
+            ctx.v.violation('go-right-after-bestmove-gets-no-single-bestmove', {'first': 'position startpos; ' + f[1], 'then': 'position startpos moves e2e4; ' + f[2] + '; stop',
+                            'observation': f[0], 'how': 'verifh rego (first search thread held at the sync point after its bestmove line while the second go is handled)'},
+                            signature=sig('c03rego', f[1], f[2]))
     wide = wide_search(ctx)
-    return {'evaluations': len(jobs) + multi * 3 + wide['searches'], 'distinct_nontrivial': len(set((j.fen, j.go, j.stop_after) for j in jobs)), 'wide': wide,
+    return {'evaluations': len(jobs) + multi * 3 + wide['searches'] + 4, 'distinct_nontrivial': len(set((j.fen, j.go, j.stop_after) for j in jobs)), 'wide': wide,
             'rule': 'positions with at least one legal move (and positions with 61..218 legal moves: `wide`) x go forms (depth, movetime incl. 1 ms and negative, clock forms incl. 1 ms budgets, infinite/bare followed by stop '
                     'after 0-50 ms, three consecutive go commands); observable = number of bestmove lines per go and legality of the move by the model generator; '
                     'non-trivial = distinct (position, go form, stop delay)',
@@ -1337,7 +1351,14 @@ def c14(ctx):
                             'fresh_session': la, 'after_history': lb}, signature=sig('c14', p['fen'], a.go))
             if len(ctx.v.violations) >= 5:
                 break
-    return {'evaluations': len(pos) * 2, 'distinct_nontrivial': len(pos),
+    # a probe that follows the previous bestmove at once, while the old search thread is still on its way out
+    rcg, outg, errg, _ = harness(['rego'], timeout=300)
+    for l in outg.strip().split('\n'):
+        f = l.split('\t')
+        if len(f) == 3 and f[0].startswith('analysis of the second go differs'):
+            ctx.v.violation('analysis-depends-on-history', {'history': 'position startpos; ' + f[1] + ' (search thread held right after its bestmove line, released after the next go)',
+                            'probe': 'position startpos moves e2e4; ' + f[2], 'observation': f[0], 'how': 'verifh rego'}, signature=sig('c14rego', f[1], f[2]))
+    return {'evaluations': len(pos) * 2 + 6, 'distinct_nontrivial': len(pos),
             'rule': 'probe (`position P`, `go depth d`) in a fresh process and after a random history (other positions, completed and stopped searches, perft/eval, '
                     'setoption with different logging intervals, isready); compared: every `info depth` line (score, nodes, pv), the final summary and bestmove, with time/nps removed; '
                     'non-trivial = distinct probes',
@@ -1372,7 +1393,7 @@ def sched_desc(r):
 
 @check('C11', ['C11.v', 'C03chess.v'])
 def c11(ctx):
-    npos, maxd, maxk = (3, 3, 3) if ctx.quick else (12, 4, 8)
+    npos, maxd, maxk = (4, 3, 3) if ctx.quick else (14, 4, 8)
     rows, err, rc = run_sched(ctx, npos, maxd, maxk, mode='c11')
     cut = [r for r in rows if ('stop' in r['cmds'] or r['hold_ms'] > 0) and r['reached']]
     req, meta = [], []
@@ -1501,6 +1522,14 @@ def c12(ctx):
                                  'seconds_from_go_to_bestmove': round(j.elapsed, 2), 'stderr': j.stderr[-400:],
                                  'how': '`position fen %s`, `go infinite`, wait %.2f s, `stop`: no bestmove within %.0f s' % (j.fen, j.stop_after, bound)},
                                 signature=sig('c12lat', j.fen))
+    # a go accepted while the previous search thread is between its bestmove line and its exit
+    rcg, outg, errg, _ = harness(['rego'], timeout=300)
+    for l in outg.strip().split('\n'):
+        f = l.split('\t')
+        if len(f) == 3 and f[0] != 'ok':
+            ctx.v.violation('go-right-after-bestmove-is-not-served', {'first': 'position startpos; ' + f[1], 'then': 'position startpos moves e2e4; ' + f[2] + '; stop',
+                            'observation': f[0], 'schedule': 'the first search thread is held at the sync point after its bestmove line while the second go is handled, then released',
+                            'how': 'verifh rego'}, signature=sig('c12rego', f[1], f[2]))
     rc2, out2, err2, _ = harness(['idle'])
     if 'blocked=0 bestmoves=1 readyoks=3' not in out2:
         ctx.v.violation('stop-or-isready-with-no-search-misbehaves', {'script': 'stop stop isready stop `position startpos` stop isready `go depth 1` ... stop stop isready',
@@ -1636,10 +1665,40 @@ def c17(ctx):
             ctx.v.violation('engine-crashed-or-wedged', {'script': ['position startpos', 'go infinite'] + seq + ['stop', 'isready'],
                             'observation': 'no bestmove/readyok; alive=%s; stderr=%s' % (e.alive(), e.stderr_text()[-300:])}, signature=sig('c17l', ' '.join(seq)))
         e.close()
+    # lines beyond every usual buffer size (1.5 and 4 MB): the session must go on (fed from a thread: a wedged engine stops reading)
+    for big in (1500000, 4000000):
+        pr = subprocess.Popen([uci.ENGINE], stdin=subprocess.PIPE, stdout=subprocess.PIPE, stderr=subprocess.PIPE)
+        got = []
+
+        def rd(pr=pr, got=got):
+            for l in pr.stdout:
+                got.append(l.decode('latin-1').strip())
+
+        def wr(pr=pr, big=big):
+            try:
+                pr.stdin.write(b'isready\nposition startpos\n' + b'y' * big + b'\nisready\nperft 1\nquit\n')
+                pr.stdin.flush()
+            except (BrokenPipeError, OSError, ValueError):
+                pass
+        for fn in (rd, wr):
+            th = threading.Thread(target=fn)
+            th.daemon = True
+            th.start()
+        try:
+            rcb = pr.wait(20)
+        except subprocess.TimeoutExpired:
+            rcb = None
+            pr.kill()
+            pr.wait()
+        time.sleep(0.05)
+        live += 1
+        if rcb != 0 or got.count('readyok') != 2 or 'total: 20' not in got:
+            ctx.v.violation('engine-crashed-or-wedged', {'script': ['isready', 'position startpos', 'y*%d' % big, 'isready', 'perft 1', 'quit'],
+                            'observation': 'exit code %s, %d readyok, perft answered: %s' % (rcb, got.count('readyok'), 'total: 20' in got)}, signature=sig('c17big', big))
     return {'evaluations': ncmp + live, 'distinct_nontrivial': len(set('\n'.join(s) for s in scripts)),
             'rule': 'scripts from the command grammar (every keyword with missing, zero, negative, huge, non-numeric argument; options out of range; commands before any position; '
                     'rejected FEN with and without a move list; mate/stalemate roots; junk and near-miss command words) executed line by line on the real binary, each line bracketed by '
-                    'isready; output classes compared with the Session model; plus allowed commands during a running search incl. a 70 KB line; non-trivial = distinct scripts',
+                    'isready; output classes compared with the Session model; plus allowed commands during a running search incl. a 70 KB line, and lines of 1.5 and 4 MB between commands; non-trivial = distinct scripts',
             'lines_compared': ncmp, 'first_words': kinds, 'scripts': nscripts, 'scripts_skipped_model_timeout': sum(1 for r in results if r is None), 'in_search_scripts': live, 'traces_validated_against_impl': ncmp,
             'samples': [{'script': scripts[k][:6], 'engine': results[k][0][:6], 'model': models[k][:6]} for k in range(len(scripts)) if results[k]][:2]}
 
@@ -1761,28 +1820,46 @@ def c19(ctx):
                 ctx.v.violation('quit-not-reached-behind-stop-sequence', {'fen': kiwi, 'go': gocmd, 'search_thread_held_at': row['at'], 'commands': cmds,
                                 'blocked_commands': row['blocked'], 'quit_handled': row.get('quit_flag'),
                                 'how': 'verifh sched1 "%s" "%s" %d %d %d 0 %s' % (kiwi, gocmd, pt, a, b, ' '.join(cmds))}, signature=sig('c19held', pt, a, b, ' '.join(cmds)))
+    # very long input lines (legal move lists of 1.2 and 3 MB, a junk line of 2 MB, also while a search runs), then quit / EOF
+    shuffle_line = 'position startpos moves ' + ' '.join(['g1f3 g8f6 f3g1 f6g8'] * 60000)
+    for end in ('quit', 'eof'):
+        trials.append(('huge-line', [shuffle_line, 'isready'], end, 0.0))
+        trials.append(('huge-line-while-searching', ['position startpos', 'go infinite', 'x' * 2000000, 'isready'], end, 0.0))
+    trials.append(('huge-line', ['position startpos moves ' + ' '.join(['g1f3 g8f6 f3g1 f6g8'] * 150000)], 'quit', 0.0))
     bad = 0
     samples = []
     for state, pre, end, delay in trials:
         p = subprocess.Popen([uci.ENGINE], stdin=subprocess.PIPE, stdout=subprocess.PIPE, stderr=subprocess.PIPE)
         try:
-            for l in pre:
-                p.stdin.write((l + '\n').encode())
-            p.stdin.flush()
-            if delay:
-                time.sleep(delay)
-            t = time.time()
-            if end == 'quit':
-                p.stdin.write(b'quit\n')
-                p.stdin.flush()
-            else:
-                p.stdin.close()
             # drain stdout so that the engine never blocks on a full pipe
             thr = threading.Thread(target=lambda: p.stdout.read())
             thr.daemon = True
             thr.start()
+            tbox = [time.time()]
+
+            def feed():
+                # from a thread: an engine that stops reading must not block the check
+                try:
+                    for l in pre:
+                        p.stdin.write((l + '\n').encode())
+                    p.stdin.flush()
+                    if delay:
+                        time.sleep(delay)
+                    tbox[0] = time.time()
+                    if end == 'quit':
+                        p.stdin.write(b'quit\n')
+                        p.stdin.flush()
+                    else:
+                        p.stdin.close()
+                except (BrokenPipeError, OSError, ValueError):
+                    pass
+            fth = threading.Thread(target=feed)
+            fth.daemon = True
+            fth.start()
+            fth.join(10 if state.startswith('huge') else 3)
+            t = tbox[0]
             try:
-                rc = p.wait(3 + (4 if state == 'perft' else 0))
+                rc = p.wait(3 + (4 if state == 'perft' else 0) + (6 if state.startswith('huge') else 0))
                 el = time.time() - t
             except subprocess.TimeoutExpired:
                 rc = None
@@ -1791,6 +1868,7 @@ def c19(ctx):
             if p.poll() is None:
                 p.kill()
                 p.wait()
+        pre = [l if len(l) < 300 else l[:120] + ' ... (%d bytes)' % len(l) for l in pre]
         samples.append({'state': state, 'script': pre, 'end': end, 'exit_code': rc, 'seconds': round(el, 3)})
         if rc is None or rc != 0:
             bad += 1
